@@ -103,7 +103,17 @@ def ulam_side(seed):
             cols.append(list(b) + list(tgt))
     rng.shuffle(cols)
     tr = np.array(cols, dtype=int).T
-    desc = dict(kind='ulam%dd' % dim, states=states, simulations=sims, transitions=tr.tolist())
+    if rng.random() < 0.15:
+        # many simulations per box stored in a narrow integer dtype (the tables shipped with the package are uint8):
+        # one transition occurs more often than the dtype can count
+        sims = rng.choice([260, 300])
+        cols = []
+        for b in sampled:
+            tgts = [rng.choice(boxes) for _ in range(2)]
+            for q in range(sims):
+                cols.append(list(b) + list(tgts[0] if q % 50 else tgts[1]))
+        tr = np.array(cols, dtype=np.uint8).T
+    desc = dict(kind='ulam%dd' % dim, states=states, simulations=sims, transitions=(tr.tolist() if tr.shape[1] < 200 else 'uint8 table with %d columns' % tr.shape[1]))
     try:
         op = (ulam.ulam_3d if three else ulam.ulam_2d)(tr, states, sims)
     except Exception as e:
